@@ -3,10 +3,11 @@ CONSTANTS
   Att = {1,2,3}
   Keys = {"", "K1", "K2"}
   MaxReq = 3
+  MaxHangups = 0
   PerReqKey = TRUE
   EmitEdges = TRUE
 INVARIANTS TypeOK OneShell Consistent IdleIsInitial ExactlyOneGone ReadyAtMostOncePerGen ShutdownWaits SameRequest AtMostOneIO NoMixIOUni
-PROPERTIES RefusedWhenRequired ReArm ReadyOnlyWhenFull FullImpliesReady NoAdmissionAfterShutdown
+PROPERTIES RefusedWhenRequired SilentOnlyAtShutdown ReArm ReadyOnlyWhenFull FullImpliesReady NoAdmissionAfterShutdown
 ACTION_CONSTRAINT Emit
 VIEW View
 CHECK_DEADLOCK FALSE
